@@ -66,11 +66,15 @@ int mod_inverse(const Ptr<RCP<const Integer>> &b, const Integer &a,
 
 RCP<const Integer> mod(const Integer &n, const Integer &d)
 {
+    if (d.is_zero())
+        throw DivisionByZeroError("mod: division by zero");
     return integer(n.as_integer_class() % d.as_integer_class());
 }
 
 RCP<const Integer> quotient(const Integer &n, const Integer &d)
 {
+    if (d.is_zero())
+        throw DivisionByZeroError("quotient: division by zero");
     return integer(n.as_integer_class() / d.as_integer_class());
 }
 
@@ -78,6 +82,8 @@ void quotient_mod(const Ptr<RCP<const Integer>> &q,
                   const Ptr<RCP<const Integer>> &r, const Integer &n,
                   const Integer &d)
 {
+    if (d.is_zero())
+        throw DivisionByZeroError("quotient_mod: division by zero");
     integer_class _q, _r;
     mp_tdiv_qr(_q, _r, n.as_integer_class(), d.as_integer_class());
     *q = integer(std::move(_q));
@@ -86,6 +92,8 @@ void quotient_mod(const Ptr<RCP<const Integer>> &q,
 
 RCP<const Integer> mod_f(const Integer &n, const Integer &d)
 {
+    if (d.is_zero())
+        throw DivisionByZeroError("mod_f: division by zero");
     integer_class q;
     mp_fdiv_r(q, n.as_integer_class(), d.as_integer_class());
     return integer(std::move(q));
@@ -93,6 +101,8 @@ RCP<const Integer> mod_f(const Integer &n, const Integer &d)
 
 RCP<const Integer> quotient_f(const Integer &n, const Integer &d)
 {
+    if (d.is_zero())
+        throw DivisionByZeroError("quotient_f: division by zero");
     integer_class q;
     mp_fdiv_q(q, n.as_integer_class(), d.as_integer_class());
     return integer(std::move(q));
@@ -102,6 +112,8 @@ void quotient_mod_f(const Ptr<RCP<const Integer>> &q,
                     const Ptr<RCP<const Integer>> &r, const Integer &n,
                     const Integer &d)
 {
+    if (d.is_zero())
+        throw DivisionByZeroError("quotient_mod_f: division by zero");
     integer_class _q, _r;
     mp_fdiv_qr(_q, _r, n.as_integer_class(), d.as_integer_class());
     *q = integer(std::move(_q));
